@@ -35,6 +35,9 @@ func sitePos(site ssa.Instruction) token.Pos {
 // callWith handles a call with already evaluated arguments (used for defers too).
 func (e *Enc) callWith(fr *Frame, c *ssa.CallCommon, site ssa.Instruction, st *State, rb Term, args []Val, fnv *Val) (Val, *State, Term) {
 	e.checkMapRange(fr, c, site, rb)
+	prevCall := e.curCall
+	e.curCall = c
+	defer func() { e.curCall = prevCall }()
 	resT := c.Signature().Results()
 	var resType types.Type = resT
 	if resT.Len() == 1 {
@@ -106,7 +109,10 @@ func (e *Enc) callWith(fr *Frame, c *ssa.CallCommon, site ssa.Instruction, st *S
 		e.havocked["dynamic call in "+funcShort(fr.fn)] = true
 		st = e.Leak(st, args...)
 		st = e.Leak(st, callee)
-		return e.freshVal("dyn", resType), e.Havoc(st, e.modAllHeap()), rb
+		dynRes := e.freshVal("dyn", resType)
+		st = e.Havoc(st, e.modAllHeap())
+		e.errKindAssumeDyn(c, dynRes, resType, st, rb)
+		return dynRes, st, rb
 	}
 	fn := callee.Clo.Fn
 	key := fnKey(fn)
@@ -242,6 +248,7 @@ func (e *Enc) defaultCall(fr *Frame, key string, args []Val, st *State, rb Term,
 	for _, p := range e.w.ct.EffectFree {
 		if strings.HasPrefix(key, p) || strings.HasPrefix(strings.TrimPrefix(strings.TrimPrefix(key, "("), "*"), p) {
 			e.effFree[key] = true
+			e.errKindAssume(key, invoke, e.curCall, args, res, resType, st, rb)
 			return res, st, rb
 		}
 	}
@@ -254,6 +261,7 @@ func (e *Enc) defaultCall(fr *Frame, key string, args []Val, st *State, rb Term,
 	inRepo := strings.Contains(key, modulePath)
 	if allPure && !inRepo {
 		e.trusted["pure-by-arguments: "+key] = true
+		e.errKindAssume(key, invoke, e.curCall, args, res, resType, st, rb)
 		return res, st, rb
 	}
 	e.havocked[key] = true
@@ -274,6 +282,7 @@ func (e *Enc) defaultCall(fr *Frame, key string, args []Val, st *State, rb Term,
 	}
 	st = e.Havoc(st, mod)
 	e.assumeNotPrivate(res, st)
+	e.errKindAssume(key, invoke, e.curCall, args, res, resType, st, rb)
 	return res, st, rb
 }
 
@@ -372,6 +381,7 @@ func (e *Enc) applyContractFV(fr *Frame, ct *Contract, key string, sig *types.Si
 		}
 		e.sc.Assert(implies(rb, f))
 	}
+	e.errKindAssume(key, invoke, e.curCall, args, res, resType, post, rb)
 	return res, post, rb
 }
 
